@@ -24,6 +24,8 @@ os.rmdir(W)
 subprocess.run(["git", "-C", "/repo", "worktree", "add", "-q", "--detach", W, "HEAD"], check=True)
 head = subprocess.run(["git", "-C", "/repo", "rev-parse", "--short", "HEAD"], capture_output=True, text=True).stdout.strip()
 meta = {"property": ID, "variant": var, "needs_to_manifest": needs, "repo_head": head, "ran": []}
+if os.environ.get("SEED_NOTE"):
+    meta["history"] = os.environ["SEED_NOTE"]
 try:
     def demo():
         return subprocess.run(["/venv/bin/python", os.path.join(dst, "demo.py"), W], capture_output=True, text=True,
